@@ -62,7 +62,7 @@ open SJ.Layout SJ.ParseDefs in
     (`Stage2WF.stage2_wf`), the scanner facts and the index-buffer partition. -/
 theorem C17_parse_wf (cfg : Cfg) (nd : Bool) (input : Bytes) (pj : PJ) (hsz : SizeOK (trimSpace input))
     (h : parseAny cfg nd input = .ok pj) : (∃ d, WF pj d) ∧ wfCheckD pj = true ∧ pj.msg = trimSpace input := by
-  obtain ⟨lvs, _, _, _, hwf, hc, _, hm⟩ := SJ.ParseWF.parse_wf cfg nd input pj hsz h
+  obtain ⟨lvs, _, _, _, hwf, hc, _, hm, _⟩ := SJ.ParseWF.parse_wf cfg nd input pj hsz h
   exact ⟨⟨_, hwf⟩, hc, hm⟩
 
 end SJ.Properties.C17
